@@ -22,7 +22,8 @@ ASSUMPTIONS = ["migen tracer shim (names only)", "masters never abort a pending 
                "slaves have >= 1 wait state (registered ack), the documented requirement of register=True",
                "unmapped addresses are only issued where a timeout is configured (InterconnectShared)"]
 FLOORS = {"quick": {"master_cycles_completed": 15000, "paired_with_slave": 14000, "contended_waits": 1500, "grant_changes": 1500,
-                    "decode_checks": 20000, "unmapped_terminated": 100},
+                    "decode_checks": 20000, "unmapped_terminated": 100,
+                    "owner_holds_cyc_with_stb_low_cycles": 500},
           "thorough": {"master_cycles_completed": 300000, "paired_with_slave": 280000, "contended_waits": 30000,
                        "grant_changes": 30000, "decode_checks": 400000, "unmapped_terminated": 2000}}
 SHARD_TIMEOUT = {"quick": 900, "thorough": 3000}
@@ -70,26 +71,49 @@ def which(regs, adr):
 
 
 class GrantMonitor:
-    def __init__(self, arb, name):
+    """Ownership: the grant of an arbiter may only move at an edge where the previous owner did not hold its cycle.
+    'Holding' is judged on the MASTER's own cyc (for a crossbar column: cyc and address inside that slave's window),
+    not on the arbiter's internal request vector."""
+    def __init__(self, arb, name, masters=None, regs=None, column=None):
         self.arb, self.name = arb, name
+        self.masters, self.regs, self.column = masters, regs, column
         self.prev = None
         self.viol = []
         self.changes = 0
         self.hist = []
+        self.held_gaps = 0          # cycles in which the owner held cyc with stb low (block cycle gaps)
 
     def signals(self):
-        return [self.arb.rr.grant, self.arb.rr.request]
+        s = [self.arb.rr.grant, self.arb.rr.request]
+        for m in self.masters or []:
+            s += [m.cyc, m.stb, m.adr]
+        return s
+
+    def holds(self, v, i):
+        m = self.masters[i]
+        if not v[m.cyc]:
+            return False
+        if self.column is None:
+            return True
+        return self.column in which(self.regs, v[m.adr])
 
     def step(self, v, c):
         g, r = v[self.arb.rr.grant], v[self.arb.rr.request]
-        self.hist.append((g, r))
+        if self.masters:
+            held = sum((1 << i) for i in range(len(self.masters)) if self.holds(v, i))
+            if g < len(self.masters) and (held >> g) & 1 and not v[self.masters[g].stb]:
+                self.held_gaps += 1
+        else:
+            held = r
+        self.hist.append((g, held))
         if self.prev is not None:
-            pg, pr = self.prev
+            pg, pheld = self.prev
             if g != pg:
                 self.changes += 1
-                if (pr >> pg) & 1:
-                    self.viol.append({"cycle": c, "kind": "grant-moved-while-owner-holds-cyc", "from": pg, "to": g, "request": pr})
-        self.prev = (g, r)
+                if (pheld >> pg) & 1:
+                    self.viol.append({"cycle": c, "kind": "grant-moved-while-owner-holds-cyc", "from": pg, "to": g,
+                                      "masters_holding_cyc": pheld})
+        self.prev = (g, held)
         return None
 
 
@@ -172,7 +196,11 @@ def run_case(case):
             return (si << 28) | ((len(slv.log) & 0xfff) << 16) | (adr & 0xffff)
         sags.append(bench.add(WBSlave(s, rng, "s%d" % si, lat=rng.choice([(0, 0), (0, 2), (0, 6), (3, 3)]),
                                       err_p=rng.choice([0, 0, 0.15]), tagger=tagger, err_with_ack=True)))
-    gms = [bench.add(GrantMonitor(a, "arb%d" % i)) for i, a in enumerate(arbs)]
+    if kind == "shared":
+        gms = [bench.add(GrantMonitor(arbs[0], "arb", masters=masters))]
+    else:
+        # crossbar: one arbiter per slave column, in slave order
+        gms = [bench.add(GrantMonitor(a, "arb%d" % i, masters=masters, regs=regs, column=i)) for i, a in enumerate(arbs)]
     dm = bench.add(DecodeMonitor(slaves, regs))
     ok = bench.run()
     # ---- offline pairing
@@ -247,6 +275,7 @@ def run_case(case):
     return {"errs": errs[:4], "nerr": len(errs), "completed": sum(len(m.log) for m in mags), "paired": paired,
             "unmapped": unmapped, "contended": contended, "grant_changes": sum(g.changes for g in gms),
             "decode_checks": dm.checks, "cycles": bench.cycle["sys"], "capped": not ok,
+            "held_gaps": sum(g.held_gaps for g in gms),
             "slave_errs": sum(1 for s in sags for e in s.log if e["err"]),
             "cfg": {"regs": regs, "socregion": use_socregion, "timeout": timeout},
             "sample_master_log": mags[0].log[:3]}
@@ -264,6 +293,7 @@ def run_shard(shard):
         col.ev("contended_waits", r["contended"])
         col.ev("grant_changes", r["grant_changes"])
         col.ev("decode_checks", r["decode_checks"])
+        col.ev("owner_holds_cyc_with_stb_low_cycles", r["held_gaps"])
         col.ev("slave_err_terminations", r["slave_errs"])
         col.ev("sim_cycles", r["cycles"])
         col.cov("topologies", "%s/%dx%d/reg%d" % (case["kind"], case["m"], case["s"], int(case["register"])))
